@@ -111,6 +111,13 @@ func corpusCases() []*c20Case {
 		mk("PAN-OS", "empty <devices> plus raw vsys", "", map[string]string{"code/router": "<config><devices></devices></config>",
 			"code/router.raw": `<config><devices><entry name="x"><vsys><entry name="vsys1"></entry></vsys></entry></devices></config>`}),
 		mk("PAN-OS", "cyclic address-groups", "", map[string]string{"code/router": `<config><devices><entry name="d"><vsys><entry name="vsys1"><rulebase><security><rules><entry name="r1"><action>allow</action><from><member>any</member></from><to><member>any</member></to><source><member>g0</member></source><destination><member>any</member></destination><service><member>any</member></service><application><member>any</member></application></entry></rules></security></rulebase><address-group><entry name="g0"><static><member>g1</member></static></entry><entry name="g1"><static><member>g0</member></static></entry></address-group></entry></vsys></entry></devices></config>`}),
+		mk("Linux", "raw rule into empty chain", "", map[string]string{"code/router": "*filter\n:OUTPUT ACCEPT\nCOMMIT\n", "code/router.raw": "*filter\n:OUTPUT ACCEPT\n-A OUTPUT -j ACCEPT\nCOMMIT\n"}),
+		mk("Linux", "raw [APPEND] rule into empty chain", "", map[string]string{"code/router": "*filter\n:OUTPUT ACCEPT\nCOMMIT\n", "code/router.raw": "*filter\n:OUTPUT ACCEPT\n[APPEND]\n-A OUTPUT -j ACCEPT\nCOMMIT\n"}),
+		mk("Linux", "raw rule into chain of DROP rules", "", map[string]string{"code/router": "*filter\n:INPUT DROP\n-A INPUT -s 10.1.1.1 -j DROP\n-A INPUT -j DROP\nCOMMIT\n", "code/router.raw": "*filter\n:INPUT DROP\n[APPEND]\n-A INPUT -j ACCEPT\nCOMMIT\n"}),
+		mk("Linux", "ipv6 rule into empty chain", "", map[string]string{"code/router": "*filter\n:OUTPUT ACCEPT\nCOMMIT\n", "code/ipv6/router": "*filter\n:OUTPUT ACCEPT\n-A OUTPUT -j DROP\nCOMMIT\n"}),
+		mk("Linux", "ipv6 rule into chain of DROP rules", "", map[string]string{"code/router": "*filter\n:INPUT DROP\n-A INPUT -j DROP\nCOMMIT\n", "code/ipv6/router": "*filter\n:INPUT DROP\n-A INPUT -j DROP\nCOMMIT\n"}),
+		mk("IOS", "crypto map in raw file (F-C20s)", "", map[string]string{"code/router": "crypto map VPN 1 ipsec-isakmp\n set peer 1.1.1.1\ninterface E0\n crypto map VPN\n",
+			"code/router.raw": "crypto map VPN 1 ipsec-isakmp\n set peer 1.1.1.1\ninterface E0\n crypto map VPN\n"}),
 		mk("NSX", "null in groups", "", map[string]string{"code/router": `{"groups":[null]}`}),
 		mk("NSX", "null in expression", "", map[string]string{"code/router": `{"groups":[{"id":"Netspoc-g1","expression":[null]}]}`}),
 		mk("NSX", "null in rules", "", map[string]string{"code/router": `{"policies":[{"id":"Netspoc-v1","rules":[null]}]}`}),
@@ -124,6 +131,43 @@ func corpusCases() []*c20Case {
 			"code/router.raw": "[APPEND]\naccess-list X extended deny ip any4 host 10.1.1.1\naccess-group X global\n"}),
 		mk("ASA", "incomplete string (pinned by the suite)", "ldap attribute-map M\n map-name memberOf Group-Policy\n map-value memberOf \"CN=a b\n", map[string]string{"code/router": ""}),
 	}
+}
+
+// panCycle: a PAN-OS configuration with one rule whose only source is g0; groups as given.
+func panConf(source string, groups map[string]string) string {
+	var g []string
+	for _, n := range []string{"g0", "g1"} {
+		if m, ok := groups[n]; ok {
+			g = append(g, `<entry name="`+n+`"><static><member>`+m+`</member></static></entry>`)
+		}
+	}
+	return `<config><devices><entry name="d"><vsys><entry name="vsys1"><rulebase><security><rules><entry name="r1"><action>allow</action><from><member>z1</member></from><to><member>z2</member></to><source><member>` + source + `</member></source><destination><member>any</member></destination><service><member>any</member></service><application><member>any</member></application></entry></rules></security></rulebase><address><entry name="a1"><ip-netmask>10.1.1.1/32</ip-netmask></entry></address><address-group>` + strings.Join(g, "") + `</address-group></entry></vsys></entry></devices></config>`
+}
+
+func panCycleCases() []*c20Case {
+	var out []*c20Case
+	ok := panConf("g0", map[string]string{"g0": "a1"})
+	cycles := map[string]string{
+		"1-cycle":        panConf("g0", map[string]string{"g0": "g0"}),
+		"2-cycle":        panConf("g0", map[string]string{"g0": "g1", "g1": "g0"}),
+		"2-cycle unused": panConf("any", map[string]string{"g0": "g1", "g1": "g0"}),
+	}
+	names := []string{"1-cycle", "2-cycle", "2-cycle unused"}
+	for _, n := range names {
+		cyc := cycles[n]
+		for _, v := range []struct{ descr, dev, code string }{
+			{"device side", cyc, ok}, {"Netspoc side", ok, cyc}, {"both sides", cyc, cyc}} {
+			for _, pos := range []string{"A", "B"} {
+				f := map[string]string{"device": v.dev, "code/router": v.code, "code/router.info": infoJSON("PAN-OS"), "device.info": infoJSON("PAN-OS")}
+				args := []string{"-q", "device", "code/router"}
+				if pos == "B" {
+					args = []string{"-q", "code/router", "device"}
+				}
+				out = append(out, &c20Case{Prog: "drc", Args: args, Files: f, Type: "PAN-OS", Test: "corpus:PAN-OS address-group " + n + ", " + v.descr, Mut: "corpus pos=" + pos, Class: "corpus"})
+			}
+		}
+	}
+	return out
 }
 
 func buildMissingApprove(ctx *Ctx, res *Result) string {
@@ -207,10 +251,17 @@ func runC20(ctx *Ctx) *Result {
 		for _, c := range corpusCases() {
 			push(c)
 		}
+		for _, c := range panCycleCases() {
+			push(c)
+		}
 		i := 0
 		enumerate(bases, func(class string, build func() *c20Case) {
 			i++
-			if mod == 1 || hash64(fmt.Sprintf("%d/%d", ctx.Seed, i))%mod == 0 || class == "unmutated" && i%5 == 0 {
+			m := mod
+			if (class == "companion" || class == "xml-groupcycle") && m > 4 {
+				m /= 4
+			}
+			if m == 1 || hash64(fmt.Sprintf("%d/%d", ctx.Seed, i))%m == 0 || class == "unmutated" && i%5 == 0 {
 				push(build())
 			}
 		})
